@@ -76,7 +76,7 @@ def measure(t, d, n, kw, tsig, r, values=None):
     for x in xs:
         try:
             v, end = R.parse(t, x + b"\xee", **kw) if not greedy else R.parse(t, x, **kw)
-            if end == n:
+            if end <= n:      # a value that needed the sentinel byte beyond the n-byte string says nothing about n
                 cands.append(T.denorm(v))
         except Exception:
             pass
@@ -84,7 +84,7 @@ def measure(t, d, n, kw, tsig, r, values=None):
         x = bytes(n) if filler == 0 else (bytes([filler]) * n if filler is not None else bytes((i * 37 + 11) % 256 for i in range(n)))
         try:
             v, end = R.parse(t, x + b"\xee", **kw) if not greedy else R.parse(t, x, **kw)
-            if end == n:
+            if end <= n:      # a value that needed the sentinel byte beyond the n-byte string says nothing about n
                 cands.append(T.denorm(v))
         except Exception:
             pass
